@@ -142,3 +142,62 @@ Theorem C18_sep_equivb_sound extra sp extra' sp' :
   sep_equivb extra sp extra' sp' = true -> forall p, holds extra p sp <-> holds extra' p sp'.
 Proof. exact (sep_equivb_sound extra sp extra' sp'). Qed.
 Print Assumptions C18_sep_equivb_sound.
+
+(* ---- the merge loops of SepMatrix::transformClosedSubset / transformOpenSubset (Dialect/SepSubsetModel.v, statement by
+   statement after constraints.cpp:587-707) against the documented meaning (constraints.h:282-295), for every sparse
+   matrix, id set and action f on the payload; hypotheses = std::map / std::set ordering (+ second id > first id for the
+   closed variant).  `mem_id i ids = true <-> In i ids` (SepSubset.mem_id_In). ---- *)
+From Adapt Require Import Dialect.SepSubsetModel Dialect.SepSubset.
+
+(* the cell (i, j) is transformed iff AT LEAST ONE of i, j is in the set (not: exactly one); nothing else changes *)
+Theorem C18_transformOpenSubset_spec (A : Type) (f : A -> A) ids (m : smat2 A) :
+  keys_ascb m = true -> rows_ascb m = true -> ascb ids = true ->
+  transformOpenSubset A f ids m = spec_open A f ids m /\
+  map fst (transformOpenSubset A f ids m) = map fst m /\
+  forall i j, sm_get A i j (transformOpenSubset A f ids m) =
+              option_map (fun sp => if mem_id i ids || mem_id j ids then f sp else sp) (sm_get A i j m).
+Proof. exact (transformOpenSubset_spec A f ids m). Qed.
+Print Assumptions C18_transformOpenSubset_spec.
+
+(* the cell (i, j) is transformed iff BOTH i and j are in the set; nothing else changes *)
+Theorem C18_transformClosedSubset_spec (A : Type) (f : A -> A) ids (m : smat2 A) :
+  keys_ascb m = true -> rows_ascb m = true -> upperb m = true -> ascb ids = true ->
+  transformClosedSubset A f ids m = spec_closed A f ids m /\
+  map fst (transformClosedSubset A f ids m) = map fst m /\
+  forall i j, sm_get A i j (transformClosedSubset A f ids m) =
+              option_map (fun sp => if mem_id i ids && mem_id j ids then f sp else sp) (sm_get A i j m).
+Proof. exact (transformClosedSubset_spec A f ids m). Qed.
+Print Assumptions C18_transformClosedSubset_spec.
+
+(* the loops compute the declarative record-list model that the op-sequence correspondence of checks/c18.py uses *)
+Theorem C18_transformOpenSubset_flat tf ids m :
+  keys_ascb m = true -> rows_ascb m = true -> ascb ids = true ->
+  sm_flat (sm_transformOpenSubset tf ids m) = m_transformOpenSubset tf ids (sm_flat m).
+Proof. exact (transformOpenSubset_flat tf ids m). Qed.
+Print Assumptions C18_transformOpenSubset_flat.
+
+Theorem C18_transformClosedSubset_flat tf ids m :
+  keys_ascb m = true -> rows_ascb m = true -> upperb m = true -> ascb ids = true ->
+  sm_flat (sm_transformClosedSubset tf ids m) = m_transformClosedSubset tf ids (sm_flat m).
+Proof. exact (transformClosedSubset_flat tf ids m). Qed.
+Print Assumptions C18_transformClosedSubset_flat.
+
+(* the set iterator of the second pass shared by all rows (seeded change C18-5): on a well-formed matrix the pair (B, C)
+   of A<B<C<D, pairs (A,D), (B,C), S = {C, D} stays untransformed, for every transform *)
+Theorem C18_transformOpenSubset_hoisted_refuted :
+  exists (m : smat2 SepPair) (ids : list nat),
+    keys_ascb m = true /\ rows_ascb m = true /\ upperb m = true /\ ascb ids = true /\
+    forall tf, sm_transformOpenSubset_hoisted tf ids m <> sm_spec_open tf ids m /\
+               sm_get SepPair 1 2 (sm_transformOpenSubset_hoisted tf ids m) = sm_get SepPair 1 2 m /\
+               sm_get SepPair 1 2 (sm_spec_open tf ids m) = option_map (transform tf) (sm_get SepPair 1 2 m) /\
+               option_map (transform tf) (sm_get SepPair 1 2 m) <> sm_get SepPair 1 2 m.
+Proof. exact transformOpenSubset_hoisted_refuted. Qed.
+Print Assumptions C18_transformOpenSubset_hoisted_refuted.
+
+(* the hypothesis `upperb` of the closed variant is needed: the inner scan starts at std::next(set_ptr1) *)
+Theorem C18_transformClosedSubset_lower_triangle_refuted :
+  exists (m : smat2 SepPair) (ids : list nat) tf,
+    keys_ascb m = true /\ rows_ascb m = true /\ ascb ids = true /\ upperb m = false /\
+    sm_transformClosedSubset tf ids m <> sm_spec_closed tf ids m.
+Proof. exact transformClosedSubset_lower_triangle_refuted. Qed.
+Print Assumptions C18_transformClosedSubset_lower_triangle_refuted.
